@@ -200,12 +200,14 @@ theorem umh_ok (b : Int) (s : St) (h : (userMallocHead b s).2.isSome = true) :
   · simp [hf] at h
   · simp only [hf, if_false]; simp only [St.full] at hf; exact ⟨trivial, by omega⟩
 
-/-- if all five pointer arrays fit, they occupy `[0, 5*hb)` and nothing else is in use -/
-theorem hdrAlloc_spec (hb : Int) (s0 : St) (h0 : 0 ≤ hb) (hb4 : hb % 4 = 0) (hu : s0.user = true) (hn : s0.nexp = 0)
+/-- if all five pointer arrays fit, they occupy `[0, 2*hb + 3*hbl)` and nothing else is in use -/
+theorem hdrAlloc_spec (hb hbl : Int) (s0 : St) (h0 : 0 ≤ hb) (hb4 : hb % 4 = 0) (h0l : 0 ≤ hbl) (hbl4 : hbl % 4 = 0)
+    (hu : s0.user = true) (hn : s0.nexp = 0)
     (ht1 : s0.top1 = 0) (hus : s0.used = 0) (ht2 : s0.top2 = s0.size) (hs4 : s0.size % 4 = 0)
-    (hok : (hdrAlloc hb s0).hdrOk = true) :
-    Mid (hdrAlloc hb s0) ∧ (hdrAlloc hb s0).top1 = 5 * hb ∧ (hdrAlloc hb s0).hdrEnd = 5 * hb ∧
-      (hdrAlloc hb s0).n = s0.n ∧ (hdrAlloc hb s0).base4 = s0.base4 ∧ (hdrAlloc hb s0).size = s0.size := by
+    (hok : (hdrAlloc hb hbl s0).hdrOk = true) :
+    Mid (hdrAlloc hb hbl s0) ∧ (hdrAlloc hb hbl s0).top1 = 2 * hb + 3 * hbl ∧
+      (hdrAlloc hb hbl s0).hdrEnd = 2 * hb + 3 * hbl ∧
+      (hdrAlloc hb hbl s0).n = s0.n ∧ (hdrAlloc hb hbl s0).base4 = s0.base4 ∧ (hdrAlloc hb hbl s0).size = s0.size := by
   simp only [hdrAlloc, Bool.and_eq_true] at hok ⊢
   obtain ⟨⟨⟨⟨e1, e2⟩, e3⟩, e4⟩, e5⟩ := hok
   obtain ⟨r1, q1⟩ := umh_ok _ _ e1
@@ -230,7 +232,7 @@ theorem addr8_cases (s : St) (p : Int) (hp : p % 4 = 0) : s.addr8 p = 0 ∨ s.ad
 /-- the two work arrays at the tail: if both fit, the full invariant holds -/
 theorem workInit_inv (c : Cfg) (hw : c.w.Ok) (s0 s : St) (hm : Mid s) (hn : 1 ≤ c.n) (hsn : s.n = c.n)
     (hI : 0 ≤ isize c) (hD : 0 ≤ dsize c) (hI4 : isize c % 4 = 0) (hD4 : dsize c % 4 = 0)
-    (hh : 0 ≤ s.hdrEnd - 5 * ((s.n + 1) * c.w.iw)) (a b cc : Int) (ha : 0 ≤ a) (hb : 0 ≤ b) (hc : 0 ≤ cc)
+    (hh : 0 ≤ s.hdrEnd - (2 * ((s.n + 1) * c.w.iw) + 3 * ((s.n + 1) * c.w.liw))) (a b cc : Int) (ha : 0 ≤ a) (hb : 0 ≤ b) (hc : 0 ≤ cc)
     (arr : Arr4 c.w s0 s a b cc) (h0 : s.hdrEnd ≤ s0.top1) (h : (workInitUser c s).2 = 0) :
     Inv c.w { (workInitUser c s).1 with nexp := (workInitUser c s).1.nexp + 1 } := by
   obtain ⟨hu, hne, h2, hus, h4, hs4, ht0, hts⟩ := hm
@@ -352,7 +354,7 @@ theorem memInit_no_spin (fx : Fixes) (fail : Nat → Bool) (c : Cfg) (ha : 1 ≤
   unfold memInit
   simp only []
   generalize (if (setupSpace c).user = false then setupSpace c
-    else hdrAlloc ((c.n + 1) * c.w.iw) (setupSpace c)) = s1
+    else hdrAlloc ((c.n + 1) * c.w.iw) ((c.n + 1) * (if fx.d11 = true then c.w.liw else c.w.iw)) (setupSpace c)) = s1
   by_cases hd : fx.d3 = true ∧ s1.hdrOk = false
   · rw [if_pos hd]
   · rw [if_neg hd]
@@ -384,7 +386,7 @@ theorem memInit_info_gt (fx : Fixes) (fail : Nat → Bool) (c : Cfg) (hw : c.w.O
   unfold memInit at h ⊢
   simp only [] at h ⊢
   generalize (if (setupSpace c).user = false then setupSpace c
-    else hdrAlloc ((c.n + 1) * c.w.iw) (setupSpace c)) = s1 at h ⊢
+    else hdrAlloc ((c.n + 1) * c.w.iw) ((c.n + 1) * (if fx.d11 = true then c.w.liw else c.w.iw)) (setupSpace c)) = s1 at h ⊢
   by_cases hd : fx.d3 = true ∧ s1.hdrOk = false
   · rw [if_pos hd] at h ⊢
     have := memoryUsage_nonneg c.w hw _ _ _ c.n hnz hnz hnz (by omega)
@@ -431,7 +433,7 @@ theorem memInit_info_gt (fx : Fixes) (fail : Nat → Bool) (c : Cfg) (hw : c.w.O
 /-- **`LUMemInit` (repaired) establishes the invariant**: for every matrix size, fill estimate,
 workspace length `lwork > 0` and alignment, if the routine returns 0 then the state it leaves satisfies
 `Inv` — whatever happened in the retry/halving loop. -/
-theorem memInit_inv_of_d3 (fx : Fixes) (h3 : fx.d3 = true) (fail : Nat → Bool) (c : Cfg) (hw : c.w.Ok) (hl : 0 < c.lwork)
+theorem memInit_inv_of_d3 (fx : Fixes) (h3 : fx.d3 = true) (h11 : fx.d11 = true) (fail : Nat → Bool) (c : Cfg) (hw : c.w.Ok) (hl : 0 < c.lwork)
     (hn : 1 ≤ c.n) (hI : 0 ≤ isize c) (hD : 0 ≤ dsize c) (hnz : 0 ≤ c.fill * c.annz)
     (hspin : (memInit fx fail c).spin = false) (h : (memInit fx fail c).info = 0) :
     Inv c.w (memInit fx fail c).st := by
@@ -443,22 +445,27 @@ theorem memInit_inv_of_d3 (fx : Fixes) (h3 : fx.d3 = true) (fail : Nat → Bool)
     rw [this]; exact Int.mul_emod_right 4 _
   have hhb0 : 0 ≤ (c.n + 1) * c.w.iw := by rw [hw.iw]; omega
   have hhb4 : ((c.n + 1) * c.w.iw) % 4 = 0 := by rw [hw.iw]; omega
+  have hhl0 : 0 ≤ (c.n + 1) * c.w.liw := Int.mul_nonneg (by omega) (le_of_lt hw.liw_pos)
+  have hhl4 : ((c.n + 1) * c.w.liw) % 4 = 0 := by
+    obtain ⟨k, hk⟩ := hw.liw4; rw [hk]
+    have : (c.n + 1) * (4 * k) = 4 * ((c.n + 1) * k) := by ring
+    rw [this]; exact Int.mul_emod_right 4 _
   have hs0 : setupSpace c = { user := true, base4 := c.base4, n := c.n, top2 := (c.lwork / 4) * 4, size := (c.lwork / 4) * 4 } := by
     unfold setupSpace; rw [if_neg (by omega)]
   unfold memInit at h hspin ⊢
-  simp only [hs0, h3, Bool.true_eq_false, if_false, true_and] at h hspin ⊢
-  by_cases hok : (hdrAlloc ((c.n + 1) * c.w.iw)
+  simp only [hs0, h3, h11, Bool.true_eq_false, if_false, if_true, true_and] at h hspin ⊢
+  by_cases hok : (hdrAlloc ((c.n + 1) * c.w.iw) ((c.n + 1) * c.w.liw)
       { user := true, base4 := c.base4, n := c.n, top2 := (c.lwork / 4) * 4, size := (c.lwork / 4) * 4 }).hdrOk = false
   · simp only [hok, if_true] at h
     have := memoryUsage_nonneg c.w hw _ _ _ c.n hnz hnz hnz (by omega)
     omega
   · simp only [hok, if_false] at h hspin ⊢
-    have hok' : (hdrAlloc ((c.n + 1) * c.w.iw)
+    have hok' : (hdrAlloc ((c.n + 1) * c.w.iw) ((c.n + 1) * c.w.liw)
       { user := true, base4 := c.base4, n := c.n, top2 := (c.lwork / 4) * 4, size := (c.lwork / 4) * 4 }).hdrOk = true := by
       simpa using hok
-    obtain ⟨hm, ht1, he, hn', hb', hsz⟩ := hdrAlloc_spec _ _ hhb0 hhb4 rfl rfl rfl rfl rfl (by simp) hok'
+    obtain ⟨hm, ht1, he, hn', hb', hsz⟩ := hdrAlloc_spec _ _ _ hhb0 hhb4 hhl0 hhl4 rfl rfl rfl rfl rfl (by simp) hok'
     simp only [] at hn' hb' hsz
-    generalize hdrAlloc ((c.n + 1) * c.w.iw)
+    generalize hdrAlloc ((c.n + 1) * c.w.iw) ((c.n + 1) * c.w.liw)
       { user := true, base4 := c.base4, n := c.n, top2 := (c.lwork / 4) * 4, size := (c.lwork / 4) * 4 } = s1 at *
     revert h hspin
     cases hloop : initLoop fx c.w fail c.annz ((c.fill * c.annz).toNat + 2) (c.fill * c.annz)
@@ -491,6 +498,6 @@ theorem memInit_fixed_inv (fail : Nat → Bool) (c : Cfg) (hw : c.w.Ok) (hl : 0 
     (hI : 0 ≤ isize c) (hD : 0 ≤ dsize c) (hnz : 0 ≤ c.fill * c.annz)
     (hspin : (memInit fixed fail c).spin = false) (h : (memInit fixed fail c).info = 0) :
     Inv c.w (memInit fixed fail c).st :=
-  memInit_inv_of_d3 fixed rfl fail c hw hl hn hI hD hnz hspin h
+  memInit_inv_of_d3 fixed rfl rfl fail c hw hl hn hI hD hnz hspin h
 
 end Slu.Mem
